@@ -88,6 +88,22 @@ def run(ctx):
                 e = {kk: vv for kk, vv in ent.items() if kk not in ("sched", "minwin", "close_ok", "kinds", "fn")}
                 e.update(kind=kind, gid=gid, data_seed=ctx.seed * 131 + gid, allow_err=True, tags="none", tagmap=blocks.NONE, sync=False)
                 specs.append(dict(e, mode="random", steps=80, style=k % 5, id=f"{gid}:{kind}{k}", seed=ctx.seed + gid, close=(k % 2 == 0)))
+    # hostile tags are input too: stray / repeated / oversize bursts into the tag-driven blocks
+    for mx, tail in ((5, 0), (1, 0), (3, 1), (20, 2), (0, 0), (2, 5)):
+        for k in range(4 if not th else 12):
+            gid += 1
+            specs.append(dict(base("StreamToPdu<u8>", {"max": mx, "tail": tail}, gid, kind="bytes", len=60 + 7 * k, tags="burst_stray" if k % 2 == 0 else "burst"),
+                              mode="random", steps=70, style=k % 5, id=f"{gid}:pdu{k}", seed=ctx.seed * 17 + gid, force_tags="burst_stray" if k % 2 == 0 else "burst"))
+    for blk, prm, kinds in (("BurstTagger<u8>", {"threshold": 0.5}, ["bytes", "special"]), ("CorrelateAccessCodeTag", {"code": [1, 0, 1], "allowed": 0}, None),
+                            ("VectorSink<u8>", {}, None), ("Delay<u8>", {"delay": 3}, None), ("Skip<u8>", {"skip": 5}, None), ("Tee<u8>", {}, None),
+                            ("RationalResampler<u8>", {"interp": 3, "deci": 2}, None), ("ToText<u8>", {}, None), ("DebugFilter<u8>", {}, None)):
+        for k in range(2 if not th else 6):
+            gid += 1
+            d = dict(base(blk, prm, gid, kind="bits" if "Correlate" in blk else "bytes", len=50 + k, tags="dense" if k % 2 else "burst_stray"),
+                     mode="random", steps=60, style=k % 5, id=f"{gid}:tg{k}", seed=ctx.seed * 19 + gid)
+            if kinds:
+                d["kinds"] = kinds
+            specs.append(d)
     # StreamToPdu / VecToStream degenerate packets
     gid += 1
     specs.append(dict(base("VecToStream<u8>", {}, gid, packets=[[], [1], [], [], [2, 3]]), mode="random", steps=40, style=1, id=f"{gid}:v", seed=gid))
